@@ -139,7 +139,7 @@ func errClass(err error) string {
 // Scenario environment
 
 type witness struct {
-	Kind      string `json:"kind,omitempty"` // "" = generated tree, "related", "long"
+	Kind      string `json:"kind,omitempty"` // "" = generated tree, "related", "long", "own"
 	Backend   string `json:"backend"`
 	Transport string `json:"transport"`
 	Scenario  int    `json:"scenario"`
@@ -154,7 +154,7 @@ type witness struct {
 
 type env struct {
 	c         *fw.Ctx
-	kind      string // "" | "related" | "long"
+	kind      string // "" | "related" | "long" | "own"
 	backend   string // "local" | "mem"
 	transport string // "inproc" | "tcp"
 	idx       int
@@ -691,6 +691,54 @@ func (e *env) checkStatBack(op string, w witness, fi *webdav.FileInfo) {
 	if !same {
 		w.Got = fmt.Sprintf("%+v", *fi2)
 		e.report(op, "path", "addresses a different resource", fmt.Sprintf("Stat of listed path %q describes %+v, the listing said %+v", fi.Path, *fi2, *fi), w)
+		return
+	}
+	if !fi.IsDir {
+		e.checkOpenBack(op, w, fi)
+	}
+}
+
+// checkOpenBack: the listed path of a file, given to Open, delivers that
+// file's bytes (Stat is not the only way a path is "addressed again").
+func (e *env) checkOpenBack(op string, w witness, fi *webdav.FileInfo) {
+	var data []byte
+	if e.backend == "mem" {
+		n := e.t.byPath[e.canon(fi.Path)]
+		if n == nil || n.Dir || !n.Openable {
+			return
+		}
+		if mf := e.mem.Files[e.canon(fi.Path)]; mf == nil || !bytes.Equal(mf.Data, n.Data) {
+			return // replaced or removed by a mutator meanwhile
+		}
+		data = n.Data
+	} else {
+		b, err := ioutil.ReadFile(e.diskPath(e.canon(fi.Path)))
+		if err != nil {
+			return
+		}
+		data = b
+	}
+	var got []byte
+	var err, rerr error
+	if !e.call("Open", w, func() {
+		var rc io.ReadCloser
+		rc, err = e.cl.Open(e.ctx, fi.Path)
+		if err == nil {
+			got, rerr = ioutil.ReadAll(rc)
+			rc.Close()
+		}
+	}) {
+		return
+	}
+	e.count("Open", "listed-path", fi.Path)
+	if err != nil {
+		w.Got = err.Error()
+		e.report(op, "path", "not accepted back by Open: "+errClass(err), fmt.Sprintf("listed path %q is refused by Open: %v", fi.Path, err), w)
+		return
+	}
+	if rerr != nil || !bytes.Equal(got, data) {
+		w.Want, w.Got = mon.DataKey(string(data)), mon.DataKey(string(got))+" read error: "+fw.ErrString(rerr)
+		e.report(op, "path", "Open delivers other bytes: "+bytesDiff(data, got), fmt.Sprintf("Open of listed path %q: %d bytes read (read error %v), backend holds %d", fi.Path, len(got), rerr, len(data)), w)
 	}
 }
 
@@ -1009,7 +1057,11 @@ var copyCombos = []*webdav.CopyOptions{nil, {}, {NoRecursive: true}, {NoOverwrit
 var moveCombos = []*webdav.MoveOptions{nil, {}, {NoOverwrite: true}}
 
 // target picks a name for a mutator: an existing resource below the endpoint,
-// a fresh name in an existing collection, or a fresh name below a missing one.
+// any resource of the tree at all (the endpoint collection itself - named ""
+// by a relative name -, its ancestors, the root, the decoys beside it - named
+// by "../"-climbing relative names or absolutely), a fresh name in an existing
+// collection (one time in five a collection beside the endpoint), or a fresh
+// name below a missing one.
 func (e *env) target() ([]string, bool) {
 	var under_ []*node
 	for _, n := range e.t.Nodes {
@@ -1018,16 +1070,26 @@ func (e *env) target() ([]string, bool) {
 		}
 	}
 	dirs := [][]string{e.ep.Segs}
-	for _, n := range under_ {
+	var allDirs [][]string
+	for _, n := range e.t.Nodes {
 		if n.Dir {
-			dirs = append(dirs, n.Segs)
+			allDirs = append(allDirs, n.Segs)
+			if under(n.Segs, e.ep.Segs) {
+				dirs = append(dirs, n.Segs)
+			}
 		}
 	}
-	switch k := e.r.Intn(10); {
+	switch k := e.r.Intn(12); {
 	case k < 4 && len(under_) > 0:
 		n := under_[e.r.Intn(len(under_))]
 		return n.Segs, n.Dir
-	case k < 9:
+	case k < 6:
+		n := e.t.Nodes[e.r.Intn(len(e.t.Nodes))]
+		return n.Segs, n.Dir
+	case k < 11:
+		if e.r.Intn(5) == 0 {
+			dirs = allDirs
+		}
 		return cat(dirs[e.r.Intn(len(dirs))], e.fresh()), e.r.Intn(4) == 0
 	default:
 		return cat(dirs[e.r.Intn(len(dirs))], e.fresh(), e.fresh()), false
@@ -1493,6 +1555,9 @@ func runScenario(c *fw.Ctx, kind, backend, transport string, idx int) {
 	case "long":
 		e.longPhase()
 		return
+	case "own":
+		e.ownPhase()
+		return
 	}
 	rb := listBucket(len(e.t.Nodes))
 	if len(e.t.Nodes) > 100 {
@@ -1557,6 +1622,12 @@ func run(c *fw.Ctx) {
 		}
 		i++
 	}
+	for k := 0; k < c.Pick(32, 512); k++ {
+		if c.Mine(i) {
+			runScenario(c, "own", "local", "inproc", k)
+		}
+		i++
+	}
 }
 
 func replay(c *fw.Ctx, raw json.RawMessage) {
@@ -1574,12 +1645,13 @@ func init() {
 		Replay: replay,
 		Rule: "A scenario = one generated resource tree (prefix collections of the endpoint, decoys beside the prefix, 2-7 collections and 5-16 files with hostile names (1 in 40 stretched to 240 bytes), depth <= 4 below the endpoint, file sizes 0 B - 256 KiB; every 17th scenario has one collection with 150+ members) served by the real webdav.Handler to the real webdav.Client " +
 			"(in-process HTTP/1.1 serialisation; a small slice over TCP with http.DefaultClient). Endpoints cycle over http://h, http://h/, /p, /p/, /p/q/ and one prefix that needs escaping. " +
-			"Read phase: Stat of every resource under every name form (absolute, absolute with trailing slash, relative, './x', 'zz/../x', '' for the endpoint collection, '../..'-climbing names for resources beside the endpoint collection), ReadDir of every collection with and without recursion, Stat of every listed path, Open of every file. " +
+			"Read phase: Stat of every resource under every name form (absolute, absolute with trailing slash, relative, './x', 'zz/../x', '' for the endpoint collection, '../..'-climbing names for resources beside the endpoint collection), ReadDir of every collection with and without recursion, Stat of every listed path and Open of every listed file under the listed path, Open of every file. " +
 			"Backends: LocalFileSystem on a real directory (reference = os.Lstat/ReadFile/own directory walk; tag and type from LocalFileSystem.Stat called directly) and an in-memory FileSystem with arbitrary tags, MIME types, instants 0001-9999 in random zones and sizes up to 2^62 (reference = the stored FileInfo). " +
-			"Mutator phase: in-memory backend - Mkdir/RemoveAll/Create/Copy (5 option values incl. nil)/Move (3) on existing and missing names under random name forms, oracle = the single mutating call the backend recorded (name, destination, options, bytes); " +
+			"Mutator phase: in-memory backend - Mkdir/RemoveAll/Create/Copy (5 option values incl. nil)/Move (3) on existing and missing names under random name forms - below the endpoint collection, the endpoint collection itself (relative name ''), and resources beside or above it (absolute names, '../'-climbing relative names) as sources and as destinations -, oracle = the single mutating call the backend recorded (name, destination, options, bytes); " +
 			"LocalFileSystem - Create/Mkdir/Copy/Move/RemoveAll with every option value, oracle = directory snapshot after the call equals the reference effect applied to the snapshot before, then a full recursive listing through the client equals the directory. " +
 			"Related-name scenarios (LocalFileSystem): groups of siblings in one collection that differ only in letter case (ASCII and non-ASCII), Unicode normalisation, a trailing dot or space, by being byte prefixes of one another, or by being percent-/entity-encoded spellings of one another (fixed groups plus look-alikes derived from a generated name), some present as files, some as collections, some absent; Stat/Open/ReadDir of all, then Create/Mkdir/Copy/Move between random ordered pairs (onto the absent or existing look-alike, or into the look-alike collection under the own name), RemoveAll of one; oracle as for every LocalFileSystem mutator (exactly the named resource changed, the look-alike untouched). " +
 			"Boundary-length scenarios (LocalFileSystem): final components of 200-255 bytes built from 1/2/3/4-byte UTF-8 characters, and one file below a chain of collections giving a host path of about 3800 bytes, each driven through first Create, Stat, Open, second Create onto the existing name, Copy to absent / onto existing / refused by NoOverwrite, Move likewise, Mkdir + Create inside twice + ReadDir + Copy of the collection + RemoveAll, every step with the directory-snapshot oracle and a byte-for-byte read-back. " +
+			"Own-looking names (LocalFileSystem): the spellings of directory entries the library creates without being asked (temporary and staging entries) are observed with a kernel directory watch (inotify) while the real client drives every mutator in every form on a scratch served directory; their shapes (digit runs replaced by fresh numbers), their fixed prefixes followed by user text, the same with suffixes and near-miss cuts then name ordinary user files and collections (with members, two levels) in the endpoint collection, the root and generated collections; Stat in every name form, Open, ReadDir at both depths against the directory on disk, the whole operation matrix of the boundary-length scenarios on four such names, Copy/Move between existing such resources, and full listings from the top afterwards. " +
 			"One evaluation = one client operation. distinct_nontrivial = distinct (backend, operation, name form(s), endpoint, set of hostile features in the name).",
 		Assumptions: []string{
 			"names are valid UTF-8 without NUL, '//' or '/./', and never end in '.' or '..' (outside the statement's domain)",
@@ -1593,6 +1665,7 @@ func init() {
 			"return values of mutators (error or nil) are tabulated, not judged: the statement speaks of what reaches the backend",
 			"copies/moves onto self, ancestors or descendants are C01/C02 territory and not issued here",
 			"related-name groups and boundary-length names are first tried on the plain os level outside the served tree: a group the volume does not keep apart (case-folding or normalising volume) and a name the volume itself refuses are skipped and counted, not judged",
+			"own-looking names: a library that is not observed to create any directory entry of its own makes that family empty (tabulated, nothing judged); the numbers put into an observed shape are nine digits starting with 9, so that a generated name is never one the serving process is about to use itself (a collision with a live temporary entry is not constructed here)",
 			"relative names are resolved by appending to the endpoint path taken as a collection and removing dot segments (own implementation, independent of path.Join)",
 		},
 		MinEvals:    func(t string) int64 { return map[string]int64{"quick": 20000, "thorough": 500000}[t] },
